@@ -94,7 +94,8 @@ func brokerAlphabet(n int) []step {
 
 func c09Acks(c *hx.Ctx) []*scenario {
 	var out []*scenario
-	reqs := [][]reqT{{{"pub", 1}}, {{"pub", 2}}, {{"sub", 1}}, {{"uns", 0}}, {{"pub", 1}, {"pub", 2}}, {{"pub", 2}, {"sub", 0}}, {{"sub", 1}, {"uns", 0}}, {{"pub", 0}, {"pub", 1}}}
+	reqs := [][]reqT{{{"pub", 1}}, {{"pub", 2}}, {{"sub", 1}}, {{"uns", 0}}, {{"pub", 1}, {"pub", 2}}, {{"pub", 2}, {"sub", 0}}, {{"sub", 1}, {"uns", 0}}, {{"pub", 0}, {"pub", 1}},
+		{{"pub", 1}, {"pub", 1}}, {{"sub", 1}, {"sub", 0}}, {{"uns", 0}, {"uns", 0}}}
 	if c.Thorough() {
 		reqs = append(reqs, []reqT{{"pub", 1}, {"sub", 1}, {"pub", 2}}, []reqT{{"pub", 2}, {"pub", 2}, {"uns", 0}})
 	}
@@ -211,6 +212,12 @@ func c09Resume(c *hx.Ctx) []*scenario {
 				opening(cfgDefault, 6, false), []step{sIdle(), sDisc(7, false)})},
 		)
 	}
+	// new requests on the resumed session while older ones are still stored: their ids must not collide
+	out = append(out,
+		&scenario{name: "resume/new-requests-while-stored", steps: cat(opening(cfg, 1, false), []step{sPub(2, 1), sPub(3, 2), sDrop(), sIdle()},
+			opening(cfg, 4, true), []step{sIdle(), sPub(5, 1), sPub(6, 2), sSub(7, 1), sB(&packet.Puback{ID: 3}), sWaitFut(5), sDrop(), sIdle()},
+			opening(cfg, 8, true), []step{sIdle(), sPub(9, 1), sDisc(10, false)})},
+	)
 	for k := 2; k <= 5; k++ {
 		out = append(out, &scenario{name: fmt.Sprintf("resume/resend-fails@%d", k), failAt: map[string]int{"send": 7 + k},
 			steps: cat(first, opening(cfg, 6, true), []step{sIdle()}, opening(cfg, 7, true), []step{sDisc(8, false)})})
@@ -256,6 +263,19 @@ func c09Regress(c *hx.Ctx) []*scenario {
 					steps: cat(opening(cfg, 1, false), []step{sPub(2, 1), sAsync(sPub(3, 1)), sWaitGate("g"), sDrop(), sIdle(), sWaitFut(2), sRelease("g"), sWaitRet(3)})})
 			}
 		}
+		// the same race for Subscribe and Unsubscribe (their re-check after storing the future)
+		for _, kind := range []string{"sub", "uns"} {
+			second := sSub(3, 1)
+			if kind == "uns" {
+				second = sUns(3)
+			}
+			out = append(out, &scenario{name: fmt.Sprintf("regress/D13-%s-c%d", kind, ci), asyncOk: true,
+				gates: []gateSpec{{kind: "nextid", k: 2, name: "g"}},
+				steps: cat(opening(cfg, 1, false), []step{sPub(2, 1), sAsync(second), sWaitGate("g"), sDrop(), sIdle(), sWaitFut(2), sRelease("g"), sWaitRet(3)})})
+		}
+		// Disconnect whose DISCONNECT write fails while requests are unacknowledged: they must still be cancelled
+		out = append(out, &scenario{name: fmt.Sprintf("regress/disconnect-write-fails-pending-c%d", ci), failAt: map[string]int{"send": 5},
+			steps: cat(opening(cfg, 1, false), []step{sPub(2, 1), sSub(3, 1), sUns(4), sDisc(5, false)})})
 		// D8: CONNECT cannot be sent, then Close must return
 		out = append(out,
 			&scenario{name: fmt.Sprintf("regress/D8-send-c%d", ci), failAt: map[string]int{"send": 1}, steps: []step{sNew(cfg), sConnect(1, cfg), sClose(2), sClose(3)}},
@@ -390,7 +410,7 @@ func c10Alphabet(ids int, rich bool) []bact {
 		}
 	}
 	if !rich {
-		al = append(al, bact{kind: "pub", id: 1, q: 2, dup: true}, bact{kind: "pub", id: 1, q: 1})
+		al = append(al, bact{kind: "pub", id: 1, q: 2, dup: true}, bact{kind: "pub", id: 1, q: 1}, bact{kind: "pub", id: 1, q: 1, dup: true})
 	}
 	al = append(al, bact{kind: "pub", id: 0, q: 0}, bact{kind: "resume"})
 	return al
@@ -490,6 +510,8 @@ func c10Enumerate(c *hx.Ctx) []*scenario {
 			{p(1, true), p(2, true), r(2), r(1), x, r(1), r(2)},
 			{p(1, false), x, p(1, true), r(1), x, r(1)},
 			{p(1, false), p(2, false), p(3, false), r(3), r(1), r(2), r(3)},
+			// ids at the byte and word boundaries
+			{p(255, false), p(256, false), p(65535, false), r(256), r(65535), r(255), x, p(65535, true), r(65535)},
 		}
 		for _, m := range modes {
 			for _, sc := range long {
@@ -544,6 +566,19 @@ func c10Enumerate(c *hx.Ctx) []*scenario {
 				}
 				out = append(out, &scenario{name: "own/" + m.tag + "-" + c10Name(sc), steps: c10Script(m.cfg, sc)})
 			}
+		}
+	}
+	// the callback is held at a gate: while it has not returned nothing may be acknowledged
+	for _, m := range modes[:2] {
+		held := func(name string, pre []step, p packet.Generic) *scenario {
+			return &scenario{name: "gate/" + m.tag + "-" + name, gates: []gateSpec{{kind: "cb", k: 1, name: "g"}},
+				steps: cat(opening(m.cfg, 1, false), pre, []step{{op: "bdrain"}, sB(p), sWaitGate("g"), {op: "bnone", n: 40}, sRelease("g"), sIdle(), sDisc(2, false)})}
+		}
+		out = append(out, held("q1", nil, inPub(1, 1, false)), held("q0", nil, inPub(0, 0, false)))
+		if m.cfg.early {
+			out = append(out, held("q2-publish", nil, inPub(1, 2, false)))
+		} else {
+			out = append(out, held("q2-pubrel", []step{sB(inPub(1, 2, false)), sIdle()}, &packet.Pubrel{ID: 1}))
 		}
 	}
 	// callback error at the k-th invocation, send failure at the k-th acknowledgement, session failures
